@@ -5,7 +5,7 @@ import "fmt"
 // UniverseTL2X is an additional universe for the TL2-side checks (C03, C04, C11 TL2 part, C13): shapes whose TL2 body
 // needs a second or third mask byte with something other than a required scalar at the block boundary. For every
 // position p in {6,7,8,14,15,16} (field index; index 0 is the field mask m) and every kind of field - bit (`m.3?true`),
-// optional int, required struct, vector, Maybe, unmasked true, optional struct, Bool - one struct with int fillers before
+// optional int, required struct, vector, Maybe, unmasked true, optional struct, Bool - one struct with fillers (one int, then Bool) before
 // p, the field k at p and a trailing string; plus a union with a 9-field variant (as a field and as a vector element).
 // Namespace x, tags from 0x20000001: it never collides with Universe(). Universe() itself is unchanged.
 func UniverseTL2X() *Schema {
@@ -26,7 +26,11 @@ func UniverseTL2X() *Schema {
 		for _, mk := range kinds {
 			fs := []Field{F("m", TNat)}
 			for i := 1; i < p; i++ {
-				fs = append(fs, F(fmt.Sprintf("f%d", i), TInt))
+				if i == 1 {
+					fs = append(fs, F("f1", TInt))
+				} else {
+					fs = append(fs, F(fmt.Sprintf("f%d", i), TBool)) // two-valued fillers keep the value enumeration small
+				}
 			}
 			fs = append(fs, mk(), F("z", TString))
 			b.Top(fs...)
